@@ -58,7 +58,7 @@ def run_check(pid, tier, seed, replay=None):
     infra_notes = []
 
     # 1. rebuild the harness from /repo's working tree, re-derive the generated constants
-    bt = vlib.build_harness()
+    bt = vlib.build_harness(bins=sorted(set(['consts'] + [b for b, _ in getattr(spec, 'HARNESS', [])] + list(getattr(spec, 'EXTRA_BINS', [])))))
     consts = vlib.gen_constants()
 
     # 2. proof obligations
